@@ -313,10 +313,16 @@ class _DataK:
         self.system = system
 
 
-def run_refinement(grp, n, ndiv, sym, nit, adpt_fac, salt, workdir):
-    """wannierberri.run() on a 3-D grid with a trivial calculator whose maximum decides the refined points.
-    -> list of dict(before=[(c,lev,fac)], ord=[1-based indices], after=[...]) (one per refinement step of run()),
-    or raises PrivateGone when the hook / the calculator interface is not the one known to the harness"""
+def run_refinement(grp, n, ndiv, sym, nit, adpt_fac, salt, workdir, restarts=()):
+    """wannierberri.run() on a 3-D grid with a trivial calculator whose maximum decides the refined points, observed
+    through the hook events of run_grid.py.  With `restarts` (restart_iteration values, e.g. (0, -1)) the first run keeps
+    the restart files and is followed, for every entry i, by run(restart=True, restart_iteration=i, adpt_num_iter=1)
+    (nothing is written back to the restart files, so every restart starts from the same files).
+    -> (geo, steps, states):
+       steps  = [dict(hist, before=[(c,lev,fac)], ord=[1-based indices], after=[...])]  one per refinement step of run()
+       states = [dict(hist, event, kl=[(c,lev,fac)])]  the K list at every StartFresh / StartRestart / UpdateIntegral /
+                Refine event; hist = "fresh" | "restart:<i>"
+    raises PrivateGone when the hook / the calculator interface is not the one known to the harness"""
     import os
     import zlib
     try:
@@ -330,7 +336,7 @@ def run_refinement(grp, n, ndiv, sym, nit, adpt_fac, salt, workdir):
     syst = group_system(grp)
     if isinstance(syst, StubSystem):
         raise PrivateGone("run() needs a real System")
-    geo = FineGeo(n, (ndiv,) * 3, nit)
+    geo = FineGeo(n, (ndiv,) * 3, nit + (1 if restarts else 0))
     E = np.arange(2, dtype=float)
 
     class Calc:
@@ -344,36 +350,46 @@ def run_refinement(grp, n, ndiv, sym, nit, adpt_fac, salt, workdir):
             p = (1.0 + (zlib.crc32(repr((c, lev, salt)).encode()) % 89) / 100.0) * 40.0 ** lev      # refined points win
             return EnergyResult([E], np.array([p, 2 * p]), transformTR=transform_ident, transformInv=transform_ident, rank=0, save_mode="bin")
 
-    state = dict(before=None, ord=[], recs=[], events=0, problem=None)
+    state = dict(hist="fresh", before=None, ord=[], steps=[], states=[], events=0, problem=None)
 
     def sink(event, f):
         state["events"] += 1
         try:
-            if event == "UpdateIntegral":
-                state["before"] = geo.proj_list(f["K_list"])
-                state["ord"] = []
+            if event in ("StartFresh", "StartRestart", "UpdateIntegral", "Refine"):
+                kl = geo.proj_list(f["K_list"])
+                state["states"].append(dict(hist=state["hist"], event=event, kl=kl))
+                if event == "UpdateIntegral":
+                    state["before"] = kl
+                    state["ord"] = []
+                elif event == "Refine":
+                    state["steps"].append(dict(hist=state["hist"], before=state["before"], ord=list(state["ord"]), after=kl))
             elif event == "Divide":
                 state["ord"].append(int(f["iK"]) + 1)
-            elif event == "Refine":
-                state["recs"].append(dict(before=state["before"], ord=list(state["ord"]), after=geo.proj_list(f["K_list"])))
         except (NonIntegral, KeyError) as ex:
-            state["problem"] = f"{event}: {type(ex).__name__}: {ex}"
+            state["problem"] = f"{state['hist']}:{event}: {type(ex).__name__}: {ex}"
     with silent():
         grid = Grid(system=syst, NKdiv=[int(x) for x in n], NKFFT=1)
+    calc = Calc()
+
+    def one(hist, **kw):
+        state["hist"] = hist
+        with silent():
+            RG.run(syst, grid, {"c": calc}, use_irred_kpt=sym, fout_name=os.path.join(workdir, "res"),
+                   file_Klist_path=os.path.join(workdir, "klist"), dump_results=False, parallel=False,
+                   adpt_mesh=ndiv, adpt_fac=adpt_fac, data_k_class=_DataK, print_progress_step_time=1e9, **kw)
     old = (RG._verif_sink, RG._VERIF_ON)
     RG._verif_sink, RG._VERIF_ON = sink, True
     try:
-        with silent():
-            RG.run(syst, grid, {"c": Calc()}, adpt_num_iter=nit, use_irred_kpt=sym, fout_name=os.path.join(workdir, "res"),
-                   file_Klist_path=os.path.join(workdir, "klist"), restart=False, allow_restart=False, dump_results=False, parallel=False,
-                   adpt_mesh=ndiv, adpt_fac=adpt_fac, data_k_class=_DataK, print_progress_step_time=1e9)
+        one("fresh", adpt_num_iter=nit, restart=False, allow_restart=bool(restarts))
+        for i in restarts:
+            one(f"restart:{i}", adpt_num_iter=1, restart=True, restart_iteration=i, allow_restart=False)
     finally:
         RG._verif_sink, RG._VERIF_ON = old
     if state["events"] == 0:
         raise PrivateGone("the verification hook of run_grid emitted no event")
     if state["problem"]:
         raise NonIntegral(state["problem"])
-    return state["recs"]
+    return geo, state["steps"], state["states"]
 
 
 # ---------------------------------------------------------------------------------------------------------------
